@@ -32,6 +32,7 @@ ASSUMPTIONS = [
     "the reference is nunavut itself run fault-free into an empty directory at the same path under the same frozen ambient state; common-mode errors of both runs are invisible",
     "obstacles placed in the output directory are regular files only (no directory where a file belongs, no read-only directories, no symlinks)",
     "DSDL inputs and option sets are sampled, not enumerated",
+    "progress is not asserted for a run with an external post-processor over a leftover file without owner read permission (the external program itself cannot read it)",
 ]
 
 LANGS = ["c", "cpp", "py", "html"]
@@ -335,7 +336,10 @@ def run_case(case: dict, ctx: dict) -> dict:
                         )
                         break
             # (c) progress once faults stop
-            if fault is None and not opts.get("no_overwrite") and not ok:
+            # (an external post-processor has to *read* the file; over a write-only leftover a real formatter fails
+            # for a real unprivileged user too, and nothing in the statement promises otherwise: not asserted there)
+            unreadable_for_extprog = bool(opts.get("pp_prog")) and any(not (pre_files[p][1] & 0o400) for p in overlap)
+            if fault is None and not opts.get("no_overwrite") and not ok and not unreadable_for_extprog:
                 first = overlap[0] if overlap else ""
                 violation(
                     "no-progress:%s:%s" % (res["status"], nnvg.sig_kind(first) if first else "clean"),
